@@ -667,7 +667,9 @@ func R23() Rule {
 		h := P.MustFunc(core.PkgGcsemu, "(*GcsEmu).handleGcsUpdateMetadataRequest")
 		var cl *ssa.Function
 		var upd *ssa.Call
-		for _, f := range core.Family(h) {
+		// the handler with the closures, "…Locked" methods and helpers it is split into
+		hScope := P.Scope(h, func(f *ssa.Function) bool { return core.PkgPathOf(f) != core.PkgGcsemu })
+		for _, f := range hScope {
 			for _, ci := range core.AllCalls(f) {
 				if isStoreCall(ci, "UpdateMeta") {
 					cl = f
@@ -720,10 +722,17 @@ func R23() Rule {
 		}
 		c.Check(okMg, "R23", "patch/metageneration-plus-one", upd.Pos(), "UpdateMeta is given old.Metageneration + 1, old read in the same critical section", "the metageneration stored by a patch is not (current metageneration + 1)")
 		// decode call and the patched object
-		var dec *ssa.Call
-		for _, ci := range core.AllCalls(cl) {
-			if ci.Static != nil && ci.Static.Pkg != nil && ci.Static.Pkg.Pkg.Path() == "encoding/json" && ci.Static.Name() == "Decode" {
-				dec, _ = ci.Instr.(*ssa.Call)
+		var dec ssa.Instruction
+		for _, f := range hScope {
+			for _, ci := range core.AllCalls(f) {
+				if ci.Static != nil && ci.Static.Pkg != nil && ci.Static.Pkg.Pkg.Path() == "encoding/json" && ci.Static.Name() == "Decode" {
+					// where the decode happens, seen from the function that stores the result
+					if f == cl {
+						dec = ci.Instr
+					} else if sites := P.ExecSites(cl, ci.Instr, setOf(hScope)); len(sites) > 0 {
+						dec = sites[0]
+					}
+				}
 			}
 		}
 		if dec == nil {
